@@ -170,6 +170,12 @@ pub enum G {
     RepCtxMax(Box<G>),
     /// `item.repeated().try_configure(|cfg, ctx, span| if ctx != 'c' { Ok(cfg.exactly(n(ctx))) } else { Err(custom(span, "TC")) })`
     TryRepCtx(Box<G>),
+    /// `item.repeated().<static bounds>.configure(|cfg, ctx| cfg.<kind>(n(ctx)))` collected into a Vec: a
+    /// configuration that overrides (part of) bounds already set on the parser; kind 0 = exactly, 1 = at_most,
+    /// 2 = at_least.  Effective bounds: each configured field replaces the static one.
+    RepCtxPre(Box<G>, Bounds, u8),
+    /// `g.map(items_of).into_iter().<sink>`: a parser whose output is iterated (`Parser::into_iter`)
+    IntoIter(Box<G>, Sink),
 }
 
 pub use G::*;
@@ -187,9 +193,9 @@ impl G {
             Map(a) | To(a) | Ignored(a) | Filter(a) | TryMap(a) | TryMapWith(a) | OrNot(a)
             | Not(a) | Rewind(a) | Boxed(a) | ToSlice(a) | ToSpan(a) | Validate(a, _)
             | Labelled(a, _) | MapErr(a) | Memo(a) | WithState(a) | NestedDelims(a)
-            | WithCtx(_, a) | MapCtx(a) | RepCtx(a) | RepCtxMax(a) | TryRepCtx(a) | Snd(a) | Fst(a) | MapUnit(a)
+            | WithCtx(_, a) | MapCtx(a) | RepCtx(a) | RepCtxMax(a) | TryRepCtx(a) | RepCtxPre(a, _, _) | Snd(a) | Fst(a) | MapUnit(a)
             | MapZ(a) | SliceWith(a) | SpanWith(a) | Mid(a) | Lazy(a) | Ext(a, _) | CustomNest(a) | Rec(a, _) => vec![a],
-            Rep(a, _, s) => {
+            Rep(a, _, s) | IntoIter(a, s) => {
                 let mut v = vec![&**a];
                 v.extend(s.child());
                 v
@@ -217,8 +223,11 @@ impl G {
         f(self) || self.children().iter().any(|c| c.any_node(f))
     }
 
-    /// No backtracking construct anywhere: nothing ever rewinds (apart from primitives restoring their
-    /// own position), so the emissions preceding a failure are fully determined.
+    /// No backtracking construct anywhere other than `recover_with`: nothing ever rewinds (apart from primitives
+    /// restoring their own position), so the emissions preceding a failure are fully determined.  A
+    /// `recover_with` is allowed: where both its parser and its strategy fail it "fails with that same error and
+    /// consumes nothing" (C08) - it rewinds past everything either of them emitted - and where the strategy
+    /// succeeds the emissions are those of a successful path.
     pub fn is_straight_line(&self) -> bool {
         !self.any_node(&|g| {
             !matches!(
@@ -228,6 +237,7 @@ impl G {
                     | Validate(..) | Labelled(..) | MapErr(_) | Memo(_) | WithState(_) | Snd(_) | Fst(_) | MapUnit(_) | MapZ(_)
                     | SliceWith(_) | SpanWith(_) | Mid(_) | Then(..) | IgnoreThen(..) | ThenIgnore(..) | PaddedBy(..)
                     | DelimitedBy(..) | Group(..) | WithCtx(..) | ThenWithCtx(..) | IgnoreWithCtx(..) | MapCtx(_)
+                    | Recover(..) | SkipUntil(..) | Retry(..)
             )
         })
     }
@@ -281,7 +291,7 @@ pub fn nullable(g: &G) -> bool {
     match g {
         Just(_) | JustSeq(..) | Any | OneOf(_) | NoneOf(_) | Select(_) | JustCtx => false,
         End | Empty => true,
-        Custom(k, ok) => *k == 0 && *ok,
+        Custom(k, ok) => *k % 10 == 0 && *ok,
         EmptyChoice => false,
         Map(a) | To(a) | Ignored(a) | Filter(a) | TryMap(a) | TryMapWith(a) | Boxed(a)
         | ToSlice(a) | ToSpan(a) | Validate(a, _) | Labelled(a, _) | MapErr(a) | Memo(a)
@@ -301,7 +311,8 @@ pub fn nullable(g: &G) -> bool {
                 _ => me,
             }
         }
-        RepCtx(_) | RepCtxMax(_) | TryRepCtx(_) => true,
+        RepCtx(_) | RepCtxMax(_) | TryRepCtx(_) | RepCtxPre(..) => true,
+        IntoIter(a, sink) => nullable(a) && sink.child().map(nullable).unwrap_or(true),
         SepBy(a, _, bd, _, _, sink) => {
             let me = bd.min == 0 || nullable(a);
             match sink {
@@ -399,6 +410,25 @@ pub fn char_of(v: &Val) -> char {
 /// the value is `b`.
 pub fn pred(v: &Val) -> bool {
     first_tok(v) != Some('b')
+}
+
+/// The items a value is iterated as by `IntoIter`: the elements of a list, anything else is one item.
+pub fn items_of(v: Val) -> Vec<Val> {
+    match v {
+        Val::L(v) => v,
+        // the probes the harness wraps around every node's value are looked through
+        Val::S(_, _, inner) | Val::Q(_, _, inner) | Val::Cx(_, inner) => items_of(*inner),
+        o => vec![o],
+    }
+}
+
+/// Effective bounds of `RepCtxPre`: the configured field(s) replace the static ones.
+pub fn pre_effective(st: &Bounds, kind: u8, n: u8) -> (u8, Option<u8>) {
+    match kind {
+        0 => (n, Some(n)),
+        1 => (st.min, Some(n)),
+        _ => (n, st.max),
+    }
 }
 
 /// The context derived from a provider's output (`then_with_ctx` / `ignore_with_ctx`).
@@ -562,6 +592,16 @@ impl fmt::Display for G {
             RepCtx(a) => write!(f, "rep_ctx({})", a),
             RepCtxMax(a) => write!(f, "rep_ctx_max({})", a),
             TryRepCtx(a) => write!(f, "try_rep_ctx({})", a),
+            RepCtxPre(a, x, k) => {
+                write!(f, "rep_ctx_pre[")?;
+                bd(f, x)?;
+                write!(f, ";{}]({})", k, a)
+            }
+            IntoIter(a, k) => {
+                write!(f, "into_iter[")?;
+                sink(f, k)?;
+                write!(f, "]({})", a)
+            }
         }
     }
 }
@@ -838,6 +878,20 @@ impl<'a> P<'a> {
                 self.i += 1;
                 self.eat(']')?;
                 WithCtx(c, un(self)?)
+            }
+            "rep_ctx_pre" => {
+                self.eat('[')?;
+                let x = self.bounds()?;
+                self.eat(';')?;
+                let k = self.num()?;
+                self.eat(']')?;
+                RepCtxPre(un(self)?, x, k)
+            }
+            "into_iter" => {
+                self.eat('[')?;
+                let s = self.sink()?;
+                self.eat(']')?;
+                IntoIter(un(self)?, s)
             }
             "repeated" => {
                 self.eat('[')?;
